@@ -452,9 +452,40 @@ UNFITTED = {"Trend": lambda: vd.Trend(1), "Spline": lambda: vd.Spline(), "Spline
             "Vector-of-fitted-parts": lambda: vd.Vector([_fitted_part(vd.Trend(1)), _fitted_part(vd.Spline(damping=1e-2))]),
             "Chain-of-fitted-parts": lambda: vd.Chain([("t", _fitted_part(vd.Trend(1))), ("k", _fitted_part(vd.KNeighbors(k=1)))]),
             "Chain-of-Vector-of-fitted-parts": lambda: vd.Chain([("v", vd.Vector([_fitted_part(vd.Trend(0)), _fitted_part(vd.Trend(1))]))]),
+            # a chain whose fit died half-way (the first step is fitted, the second refused its collinear points) - and a fitted chain that was
+            # given a new, never fitted step afterwards: a step that cannot predict yet must stop the whole prediction
+            "Chain-whose-fit-died-half-way": lambda: _half_fitted_chain(),
+            "Chain-given-an-unfitted-step-after-fit": lambda: _chain_with_new_step(),
+            "Vector-given-an-unfitted-component-after-fit": lambda: _vector_with_new_component(),
             "clone-of-fitted-Trend": lambda: __import__("sklearn.base").base.clone(_fitted_part(vd.Trend(1))),
             "clone-of-fitted-Chain": lambda: __import__("sklearn.base").base.clone(
                 vd.Chain([("t", vd.Trend(1)), ("s", vd.Spline(damping=1e-2))]).fit((np.arange(6.0), np.arange(6.0) ** 2 % 5), np.arange(6.0)))}
+
+
+def _half_fitted_chain():
+    ch = vd.Chain([("trend", vd.Trend(1)), ("linear", vd.Linear()), ("knn", vd.KNeighbors(1))])
+    e = np.arange(8.0)
+    try:
+        ch.fit((e, 2.0 * e + 1.0), 0.25 * e)      # a single flight line: the triangulation refuses collinear points
+    except Exception:  # noqa: BLE001
+        pass
+    else:
+        raise RuntimeError("the fit that was meant to fail half-way succeeded")
+    return ch
+
+
+def _chain_with_new_step():
+    ch = _fitted_part(vd.Chain([("trend", vd.Trend(1)), ("knn", vd.KNeighbors(1))]))
+    ch.set_params(steps=[("trend", ch.steps[0][1]), ("spline", vd.Spline(damping=1e-2)), ("knn", ch.steps[1][1])])
+    return ch
+
+
+def _vector_with_new_component():
+    e = np.array([0.0, 1.0, 2.5, 3.0, 4.5, 6.0])
+    n = np.array([1.0, -1.0, 0.5, 2.0, 3.5, -2.0])
+    v = vd.Vector([vd.Trend(1), vd.Trend(1)]).fit((e, n), (e - n, e + n))
+    v.components = [v.components[0], vd.KNeighbors(2)]
+    return v
 
 
 def _fitted_part(g):
